@@ -204,8 +204,23 @@ def tla_program(prog: dict) -> dict:
     }
 
 
+DEFAULT_ORACLE = {"Ref": '[wf |-> "", st |-> <<>>]', "Ideal": '[wf |-> "", st |-> <<>>]', "Racy": "{}",
+                  "ExecMax": "<<>>", "CheckProps": "{}", "MaxDepth": "400"}
+
+
+def oracle_tla(ref: dict) -> dict:
+    """reference() record -> raw TLA+ definitions for Program.tla"""
+    return {"Ref": "[wf |-> %s, st |-> %s]" % (tla_value(ref["Ref"]["wf"]), tla_value(ref["Ref"]["st"])),
+            "Ideal": "[wf |-> %s, st |-> %s]" % (tla_value(ref["Ideal"]["wf"]), tla_value(ref["Ideal"]["st"])),
+            "Racy": tla_value(set(ref["Racy"])),
+            "ExecMax": tla_value(ref["ExecMax"])}
+
+
 def to_tla(prog: dict, extra: dict | None = None) -> str:
     rec = tla_program(prog)
+    ex = dict(DEFAULT_ORACLE)
+    ex.update(extra or {})
+    extra = ex
     fields = ",\n   ".join(f"{k} |-> {tla_value(v)}" for k, v in rec.items())
     out = ["---- MODULE Program ----", "EXTENDS TLC", f"P == [\n   {fields} ]"]
     for k, v in (extra or {}).items():
